@@ -27,6 +27,7 @@ for sid, info in sorted(INFO.items()):
         "rules_that_fired": ["%s %s" % (p, r) for p, r in rules],
         "first_run": info.get("first_run", "caught"),
         "strengthening": info.get("strengthening", ""),
+        "note": info.get("note", ""),
     }
     json.dump(meta, open(os.path.join(d, "meta.json"), "w"), indent=1)
     print(sid, info["property"], "caught by", caught or "NONE", "|", info.get("first_run", "caught"))
